@@ -144,6 +144,8 @@ func c04Values(types []*pt.Type) []c04Value {
 		c04Value{"constexpr:({k:1})", nil, pt.Group{X: pt.M("k", pt.N(1))}},
 		c04Value{"emptyexpr:[]+[]", nil, pt.Bin("+", pt.A(), pt.A())}, c04Value{"emptyexpr:([])", nil, pt.Group{X: pt.A()}}, c04Value{"emptyexpr:[]*2", nil, pt.Bin("*", pt.A(), pt.N(2))},
 		c04Value{"emptyexpr:[][:]", nil, pt.Slice{X: pt.A()}}, c04Value{"emptyexpr:({})", nil, pt.Group{X: pt.M()}}, c04Value{"emptyexpr:[]+[1]", nil, pt.Bin("+", pt.A(), pt.A(pt.N(1)))},
+		c04Value{"emptyexpr:[]+[[]]", nil, pt.Bin("+", pt.A(), pt.A(pt.A()))}, c04Value{"emptyexpr:[[]]+[]", nil, pt.Bin("+", pt.A(pt.A()), pt.A())},
+		c04Value{"emptyexpr:[]+[{}]", nil, pt.Bin("+", pt.A(), pt.A(pt.M()))},
 		c04Value{"call:split", nil, pt.C("split", pt.S("a b"), pt.S(" "))}, c04Value{"call:len", nil, pt.C("len", pt.S("a"))},
 		c04Value{"call:print(none)", nil, pt.C("cls")}, c04Value{"call:read", nil, pt.C("read")},
 		c04Value{"assert:x.([]num)", []pt.Stmt{x}, pt.Assert{X: pt.V("x"), T: tNumArr}},
@@ -279,7 +281,8 @@ func runC04(w *fw.Worker) {
 			operands = append(operands, operand{"lit:" + t.String(), nil, l})
 		}
 	}
-	operands = append(operands, operand{"empty:[]", nil, pt.A()}, operand{"empty:{}", nil, pt.M()}, operand{"empty:[[]]", nil, pt.A(pt.A())})
+	operands = append(operands, operand{"empty:[]", nil, pt.A()}, operand{"empty:{}", nil, pt.M()}, operand{"empty:[[]]", nil, pt.A(pt.A())},
+		operand{"empty:[{}]", nil, pt.A(pt.M())}, operand{"empty:[[] [[]]]", nil, pt.A(pt.A(), pt.A(pt.A()))}, operand{"empty:{k:[]}", nil, pt.M("k", pt.A())})
 	for _, op := range ops {
 		for _, l := range operands {
 			for _, r := range operands {
